@@ -69,10 +69,14 @@ def trace_addresses(start, data, entries, steps, rst_args=None):
     from skoolkit.simulator import Simulator
     end = start + len(data)
     seen = set()
-    for ent in entries:
+    for ent, f0 in [(e_, f_) for e_ in entries for f_ in (None, 0x00, 0xFF)]:
+        # (each entry is also run with all flags clear and all flags set, so that both outcomes of the first
+        # conditional jumps are in the map, as they would be after a real session)
         mem = [0] * 65536
         mem[start:end] = data
         sim = Simulator(mem, {'SP': 0xFF00 if end <= 0xFE00 else 0x7F00})
+        if f0 is not None:
+            sim.registers[1] = f0
         pc = start + ent
         regs = sim.registers
         for _ in range(steps):
@@ -224,7 +228,8 @@ def oracle(case, rec=None):
         if bad:
             sig = 'overlap-warning'
             m = re.search(r'Instruction at (\$?[0-9A-Fa-f]+) overlaps', bad[0]) or re.search(r"directive at (\d+)/\$[0-9A-Fa-f]+ overlaps '[a-z]' directive", bad[0])
-            if mp:
+            if mp and mp['kind'] == 'trace':
+                # (maps made of arbitrary addresses are judged for termination and tiling only: any overlap there stays F16)
                 # F16 is about block starts taken from the map (an executed address inside an instruction of the
                 # preceding block) and about the block that reaches END: an overlap at any other address is something else
                 my = re.search(r'overlaps the following instruction at (\$?[0-9A-Fa-f]+)', bad[0])
@@ -236,6 +241,10 @@ def oracle(case, rec=None):
                 x = _addr(m.group(1)) if m.group(1)[0] == '$' else int(m.group(1))
                 idx = max(i for i, (c, a) in enumerate(blocks) if a <= x)
                 if blocks[idx][0] == 'c' and idx > 0 and blocks[idx - 1][0] == 't':
+                    sig = 'overlap-warning:code-resumed-after-text'
+                elif case.get('tmlc') in (1, 2) and any(blocks[j][0] == 't' and blocks[j + 1][0] == 'c' for j in range(max(0, idx - 4), min(idx + 1, len(blocks) - 1))):
+                    # TextMinLengthCode 1-2 turns single characters inside code into text blocks: the same mechanism,
+                    # a few blocks further back
                     sig = 'overlap-warning:code-resumed-after-text'
             raise Violation(sig, 'sna2skool on sna2ctl output: %s' % bad[0], case)
         other = [w for w in r.warnings() if w not in bad]
